@@ -69,6 +69,8 @@ pub enum Error {
     CborErrorWithSource(coset::CoseError),
     #[error("Could not serialize to cbor")]
     CborError,
+    #[error("date is outside the supported range once converted to UTC")]
+    UtcOutOfRange,
 }
 
 impl TryFrom<ValidityInfo> for ciborium::Value {
@@ -83,7 +85,8 @@ impl TryFrom<ValidityInfo> for ciborium::Value {
                     Box::new(ciborium::Value::Text(
                         $date
                             .replace_millisecond(0)?
-                            .to_offset(UtcOffset::UTC)
+                            .checked_to_offset(UtcOffset::UTC)
+                            .ok_or(Error::UtcOutOfRange)?
                             .format(&Rfc3339)?,
                     )),
                 );
